@@ -14,7 +14,7 @@ from cobald.daemon.runners.service import ServiceRunner, ServiceUnit, service
 
 from ..symx import EngineError
 
-BOUND = 20.0
+BOUND = 12.0
 FLAVOURS = {"asyncio": asyncio, "trio": trio, "threading": threading, "asyncio_stubborn": asyncio}
 
 
